@@ -234,6 +234,11 @@ class Evaluator(object):
             if len(a.axes) != 1 or len(b.axes) > 1:
                 raise Untranslatable("np.outer of %s and %s" % (a.axes, b.axes))
             return Arr((a.axes[0], b.axes[0] if b.axes else None), ("bin", "*", a.e, b.e))
+        if fn == "np.sum" and len(args) == 1 and not node.keywords:
+            v = self.ev(args[0])
+            if len(v.axes) != 1 or v.axes[0] is None:
+                raise Untranslatable("np.sum without an axis on %s" % (v.axes,))
+            return Arr((), ("sum", v.axes[0], v.e))
         if fn == "np.sum" and len(args) == 1 and node.keywords:
             v = self.ev(args[0])
             k = node.keywords[0].value
